@@ -97,17 +97,13 @@ impl Var {
                     Val::Integer(0)
                 } else {
                     use VarType::*;
-                    if let Some(idx) = var_name.chars().next() {
-                        debug_assert!(idx.is_ascii_uppercase());
-                        match self.types[idx as usize - 'A' as usize] {
-                            Integer => Val::Integer(0),
-                            Single => Val::Single(0.0),
-                            Double => Val::Double(0.0),
-                            String => Val::String("".into()),
-                        }
-                    } else {
-                        debug_assert!(false);
-                        Val::Single(0.0)
+                    match self.letter_type(var_name) {
+                        Some(Integer) => Val::Integer(0),
+                        Some(Single) => Val::Single(0.0),
+                        Some(Double) => Val::Double(0.0),
+                        Some(String) => Val::String("".into()),
+                        // not a variable name (a FOR frame damaged by CONT after an error)
+                        None => Val::Single(0.0),
                     }
                 }
             }
@@ -201,19 +197,24 @@ impl Var {
             self.insert_integer(var_name, value)
         } else if var_name.ends_with('$') {
             self.insert_string(var_name, value)
-        } else if let Some(idx) = var_name.chars().next() {
-            debug_assert!(idx.is_ascii_uppercase());
-            use VarType::*;
-            match self.types[idx as usize - 'A' as usize] {
-                Integer => self.insert_integer(var_name, value),
-                Single => self.insert_single(var_name, value),
-                Double => self.insert_double(var_name, value),
-                String => self.insert_string(var_name, value),
-            }
         } else {
-            debug_assert!(false);
-            Err(error!(InternalError))
+            use VarType::*;
+            match self.letter_type(var_name) {
+                Some(Integer) => self.insert_integer(var_name, value),
+                Some(Single) => self.insert_single(var_name, value),
+                Some(Double) => self.insert_double(var_name, value),
+                Some(String) => self.insert_string(var_name, value),
+                // not a variable name (a FOR frame damaged by CONT after an error)
+                None => Err(error!(InternalError)),
+            }
         }
+    }
+
+    /// The type an undecorated name has by its first letter; None if it does not start with A-Z.
+    fn letter_type(&self, var_name: &str) -> Option<VarType> {
+        let first = var_name.chars().next()?;
+        let idx = (first as usize).checked_sub('A' as usize)?;
+        self.types.get(idx).cloned()
     }
 
     fn update_val(&mut self, var_name: &Rc<str>, value: Val) {
